@@ -892,16 +892,25 @@ def wstep (w : World) (c : WCall) (script : Script) (errno : Int := 0) : Except 
 
 /-- close-on-exec flag of descriptor `fd` after the native calls of a trace, starting from `init`
     (kernel contract: `socket` with SOCK_CLOEXEC sets it, `accept` yields a descriptor without it,
-    a successful `fcntl (F_SETFD, v)` sets it to `v & FD_CLOEXEC`). -/
+    a successful `fcntl (F_SETFD, v)` sets it to `v & FD_CLOEXEC`, `fcntl (F_GETFD)` reports it). -/
 def cloexecAfter (fd : Int) : List Ev → Bool → Bool
   | [], b => b
   | ev :: rest, b =>
     let b' := match ev.call, ev.res.ret with
       | .socket _ t _, .ok v => if Int.ofNat v = fd then (t.toNat &&& SOCK_CLOEXEC.toNat ≠ 0) else b
       | .accept _, .ok v => if Int.ofNat v = fd then false else b
-      | .fcntl f cmd arg, .ok _ => if f = fd ∧ cmd = F_SETFD then (arg.toNat &&& FD_CLOEXEC.toNat ≠ 0) else b
+      | .fcntl f cmd arg, .ok v =>
+        if f = fd ∧ cmd = F_SETFD then (arg.toNat &&& FD_CLOEXEC.toNat ≠ 0)
+        else if f = fd ∧ cmd = F_GETFD then (v &&& FD_CLOEXEC.toNat ≠ 0)     -- the kernel's answer is the truth
+        else b
       | _, _ => b
     cloexecAfter fd rest b'
+
+/-- kernel contract assumed by `cloexec`: the `fcntl (F_GETFD / F_SETFD)` calls on descriptor `fd` do not fail -/
+def fcntlFdOk (fd : Int) (tr : List Ev) : Bool :=
+  tr.all fun ev => match ev.call with
+    | .fcntl f cmd _ => !(f = fd ∧ (cmd = F_GETFD ∨ cmd = F_SETFD)) || !ev.res.failed
+    | _ => true
 
 /-- descriptor table: the numbers currently open, as the trace says.  `none` = the trace closes a
     number that is not open (stray / double close) or obtains a number that is still open. -/
